@@ -249,6 +249,8 @@ class Ref:
             return self.template(d["s"], {}, o)
         if d["t"] == "factory":
             self.emit(("factory", key))
+            if d.get("raises"):
+                raise RFail({("exc", d["raises"])})
             return copy.deepcopy(d["v"])
         return self.ev(d["n"], o)
 
